@@ -636,39 +636,73 @@ def _symmetrised_input(ctx, fi, mat):
             X = strip_wrappers(m_[0])
             continue
         break
-    perms, base = [], None
-    for sg, t in sum_terms(X):
-        t = strip_wrappers(t)
-        pr, src = None, None
-        a = m_arrcall(t, "transpose") if t.op == "call" else None
-        if a is not None and len(a) == 2 and strip_wrappers(a[1]).op in ("tuple", "list"):
-            src, ax = a[0], strip_wrappers(a[1]).args
-            if all(x.op == "const" and type(x.args[0]) is int for x in ax):
-                pr = tuple(x.args[0] for x in ax)
-        elif t.op == "call" and array_fn(t) == "einsum" and len(call_parts(t)[1]) == 2 and \
+    def one_perm(t):
+        """(axis permutation, operand) when t is a pure axis permutation of a 4-index operand, else None"""
+        a_ = m_arrcall(t, "transpose") if t.op == "call" else None
+        if a_ is not None and len(a_) == 2 and strip_wrappers(a_[1]).op in ("tuple", "list"):
+            ax = strip_wrappers(a_[1]).args
+            if len(ax) == 4 and all(x.op == "const" and type(x.args[0]) is int for x in ax):
+                return tuple(x.args[0] for x in ax), a_[0]
+            return None
+        if t.op == "call" and array_fn(t) == "einsum" and len(call_parts(t)[1]) == 2 and \
                 call_parts(t)[1][0].op == "const" and isinstance(call_parts(t)[1][0].args[0], str) and \
                 "->" in call_parts(t)[1][0].args[0]:
             i_, o_ = call_parts(t)[1][0].args[0].replace(" ", "").split("->")
             if len(i_) == 4 and sorted(i_) == sorted(o_) and len(set(i_)) == 4:
-                pr, src = tuple(i_.index(c) for c in o_), call_parts(t)[1][1]
-        else:
-            mt = m_method(t, "transpose")
-            if mt is not None:
-                ax = mt[1]
-                if len(ax) == 1 and strip_wrappers(ax[0]).op in ("tuple", "list"):
-                    ax = strip_wrappers(ax[0]).args
-                if len(ax) == 4 and all(x.op == "const" and type(x.args[0]) is int for x in ax):
-                    pr, src = tuple(x.args[0] for x in ax), mt[0]
-        if pr is None:
-            pr, src = (0, 1, 2, 3), t
-        src = strip_wrappers(src)
-        if base is None:
-            base = src
-        if src is not base or sg != 1 or len(pr) != 4 or sorted(pr) != [0, 1, 2, 3]:
-            ctx.rep.note("sampler.propagate_phaseless_ad_1: the tensor handed to modified_cholesky is not a plain sum of axis "
-                         "permutations of one tensor; the symmetry of the input is not decided")
-            return
-        perms.append(pr)
+                return tuple(i_.index(c) for c in o_), call_parts(t)[1][1]
+            return None
+        mt = m_method(t, "transpose")
+        if mt is not None:
+            ax = mt[1]
+            if len(ax) == 1 and strip_wrappers(ax[0]).op in ("tuple", "list"):
+                ax = strip_wrappers(ax[0]).args
+            if len(ax) == 4 and all(x.op == "const" and type(x.args[0]) is int for x in ax):
+                return tuple(x.args[0] for x in ax), mt[0]
+        return None
+
+    def expand(t, depth=0):
+        """t as a list of (axis permutation, leaf tensor) with unit coefficients, sums and permutations of sums expanded
+        (a symmetrisation written in two steps is the product of the two sets); None when t is not of that form"""
+        t = strip_wrappers(t)
+        if depth > 6:
+            return None
+        for _ in range(3):
+            d = m_binop(t, "/")
+            if d is not None and strip_wrappers(d[1]).op == "const":
+                t = strip_wrappers(d[0])
+                continue
+            break
+        terms = sum_terms(t)
+        if len(terms) > 1:
+            out = []
+            for sg, x in terms:
+                if sg != 1:
+                    return None
+                e_ = expand(x, depth + 1)
+                if e_ is None:
+                    return None
+                out += e_
+            return out
+        op_ = one_perm(t)
+        if op_ is not None:
+            pr, src = op_
+            if sorted(pr) != [0, 1, 2, 3]:
+                return None
+            inner = expand(src, depth + 1)
+            if inner is None:
+                return None
+            # transpose(transpose(T, q), p)[k] = T's axis q[p[k]]
+            return [(tuple(q[pr[k]] for k in range(4)), leaf) for q, leaf in inner]
+        if t.op == "binop" and t.args[0] in ("*", "@", "-", "+"):
+            return None
+        return [((0, 1, 2, 3), t)]
+
+    ex = expand(X)
+    if ex is None or len({leaf.uid for _, leaf in ex}) != 1:
+        ctx.rep.note("sampler.propagate_phaseless_ad_1: the tensor handed to modified_cholesky is not a plain sum of axis "
+                     "permutations of one tensor; the symmetry of the input is not decided")
+        return
+    perms = [pr for pr, _ in ex]
     swap = (2, 3, 0, 1)
     image = sorted(tuple(pr[swap[k]] for k in range(4)) for pr in perms)
     ok = image == sorted(perms)
